@@ -469,3 +469,25 @@ func (f *FCFG) ReachesNode(a, b ast.Node) bool {
 	}
 	return f.Reaches(la, lb)
 }
+
+// ReachesFwdNode: a executes before b on some path that takes no loop back
+// edge (i.e. within one iteration of every enclosing loop).
+func (f *FCFG) ReachesFwdNode(a, b ast.Node) bool {
+	la, ok1 := f.Locate(a)
+	lb, ok2 := f.Locate(b)
+	if !ok1 || !ok2 {
+		return true
+	}
+	if la.B == lb.B {
+		return la.I < lb.I
+	}
+	for _, s := range la.B.Succs {
+		if f.dom[la.B.Index][s.Index] {
+			continue // back edge
+		}
+		if f.reachableForward(s, lb) {
+			return true
+		}
+	}
+	return false
+}
